@@ -49,7 +49,14 @@ RULE = ("random scenarios built through the public constructors (0..6 lanelets i
         "goal checks on own and foreign states, ==, hash, copy, deepcopy, pickle, network copies, str, draw+render (with 0..5 of 22 "
         "draw parameters moved off their defaults, e.g. traffic signs shown, speed-limit unit, intersections, labels; whole scenario, "
         "planning problems, or signs / lights / network / obstacles handed to the renderer directly), XML and protobuf "
-        "export); 8 of every 20 cases are directed (a real speed-limit sign that gets rendered, merge of lanelets with different obstacle registrations, orientation-less "
+        "export, and the rarely used read-only entry points found by the generator audit: find_*_by_id, sign / light reference queries, "
+        "prediction.occupancy_at_time_step, Trajectory members, State.has_value / convert_state_to_state / translate_rotate / __array__, "
+        "occupancy_shape_from_state, cycle queries, shape and interval queries on scenario-owned shapes / goal intervals, "
+        "TrafficSignInterpreter, visualization.util, ScenarioID.from_benchmark_id, merge_lanelets, reading back the written file, the "
+        "format writers used directly with explicit arguments / precision / check_validity / one writer for several writes, a renderer "
+        "reused for several drawings with keep_static_artists / plot_limits / focus_obstacle / filename / create_video); half of the cases "
+        "start from a HISTORY (queries that fill caches, translate_rotate, assign_obstacles_to_lanelets, setters given their own value, "
+        "remove + re-add, a failing add_objects, generate_object_id) applied before the read-only sequence; 8 of every 20 cases are directed (a real speed-limit sign that gets rendered, merge of lanelets with different obstacle registrations, orientation-less "
         "trajectory queried, table with missing keys exported, goal check on scenario-owned states); a case is one (scenario, "
         "sequence); non-trivial = every case (>= 5 operations, each followed by a snapshot and both exports); distinct = distinct "
         "canonical JSON")
@@ -61,6 +68,12 @@ ASSUMPTIONS = [
     "Lanelet.distance / inner_distance or TrafficLightCycle.cycle_init_timesteps (these are exercised as operations instead)",
     "the file date (XML attribute `date`, protobuf information.date) is erased before comparing exports",
     "an export that raises before and raises the same exception class after counts as the same export",
+    "c18_dims.py lists every public method / property of 48 library classes (439 entries) and every parameter of the 53 constructors and "
+    "parameterised entry points the generator calls (216 entries) with one decision each (mutator = outside the quantifier; op:<kind>; snapshot; "
+    "n/a); the table is compared with inspect on the library on every run, an unknown public name or parameter is exit 2",
+    "documented mutators (add_*, remove_*, translate_rotate, setters, assign_obstacles_to_lanelets, generate_object_id, update_*, "
+    "convert_to_2d, fill_with_defaults, append_state, ...) are outside the quantifier of C18; some of them are used to build the history "
+    "before the read-only sequence",
     "model side: geometry and goal decisions are parameters of the model operations (evaluated on a third, untouched copy of the "
     "scenario); every public attribute that no modelled operation looks into enters the model state as one content token "
     "(CR.Frame.Extra), so the frame theorem speaks about it but cannot see inside it",
@@ -69,7 +82,9 @@ ASSUMPTIONS = [
     "of other side effects of those calls is decided by the oracle",
 ]
 TRUSTED = ["matplotlib Agg backend, lxml, protobuf runtime (used only to run the operations under test and to erase the date)"]
-REQUIRED_BUCKETS = ["draw:speed-limit-sign-rendered", "draw-flag:draw_traffic_signs", "draw:signs", "op:reached_own", "traj:custom-full", "op:occ", "op:state", "op:occs", "op:find_pos", "op:light", "op:reached", "op:eq", "op:hash", "op:copy",
+REQUIRED_BUCKETS = ["dims:checked", "op:net_find", "op:pred_q", "op:state_q", "op:cycle_q", "op:shape_q", "op:interval_q", "op:sign_interp", "op:viz_util",
+                    "op:read_back", "op:write_x", "lanelet_q:merge_direct", "draw:reuse", "pre:translate", "pre:query", "pre:set_same_traj",
+                    "pre:remove_readd", "pre:failed_add", "spec:areas", "spec:map_info", "spec:no-dynamic", "spec:id-0", "draw:speed-limit-sign-rendered", "draw-flag:draw_traffic_signs", "draw:signs", "op:reached_own", "traj:custom-full", "op:occ", "op:state", "op:occs", "op:find_pos", "op:light", "op:reached", "op:eq", "op:hash", "op:copy",
                     "op:deepcopy", "op:pickle", "op:draw", "op:write_xml", "op:write_pb", "op:occset",
                     "traj:custom-vvy", "traj:pm", "traj:ks", "pred:set", "shape:group",
                     "tbl:defaultdict-missing", "tbl:dict-missing", "tbl:none", "export:xml-ok", "export:pb-ok", "merge:ids-to-merge",
@@ -154,7 +169,16 @@ def gen_traj_states(r, cls, t1, n):
 
 def gen_spec(r, tiny=False):
     spec = {"dt": r.choice([0.1, 0.1, 0.04, 0.5]), "tags": sorted(r.sample(["URBAN", "HIGHWAY", "INTERSECTION", "SIMULATED"], r.randint(1, 2))),
-            "location": r.random() < 0.5, "scenario_id": r.choice([None, ["ZAM", "Frame", 3, 2, "T", 1], ["DEU", "A9", 1, None, None, None]])}
+            "location": r.random() < 0.5, "scenario_id": r.choice([None, ["ZAM", "Frame", 3, 2, "T", 1], ["DEU", "A9", 1, None, None, None],
+                                                                   ["USA", "Lanker", 2, 1, "S", 3, True]])}
+    if spec["location"]:
+        # Location / GeoTransformation / Environment / Time arguments: given or left out, several values
+        spec["location"] = {"geo_name_id": r.choice([2867714, -999, 0]), "lat": r.choice([48.25, 999.0, -33.5]), "lon": r.choice([11.5, 999.0]),
+                            "geo": r.choice([None, ["ref", 1.0, 2.0, 0.5, 1.0], ["+proj=utm", 0.0, 0.0, 0.0, 2.5]]),
+                            "env": r.choice([None, [12, 15, None, None, None, "NIGHT", "FOG", "DIRTY"], [7, 5, 24, 12, 2020, "NIGHT", "SNOW", "WET"],
+                                             [0, 0, None, None, None, "UNKNOWN", "UNKNOWN", "UNKNOWN"]])}
+    spec["map_info"] = r.choice([None, None, ["2020a", "ZAM_Frame-3", [10, 30, 1, 2, 2021], "M. Apper", "TUM", "survey", "CC-BY", "text"],
+                                 ["2020a", "DEU_A9-1", None, "", "", "", "", None]])
     rows = r.choice([0, 1, 1, 2, 2]) if not tiny else r.choice([0, 1])
     cols = r.choice([1, 2, 3]) if not tiny else 1
     lanelets = []
@@ -165,12 +189,12 @@ def gen_spec(r, tiny=False):
             ll = {"id": lid, "row": rr, "col": cc, "n": n, "bend": r.choice([0.0, 0.0, 0.5]),
                   "pred": ([lid - 1] if cc > 0 else []) + ([lid - 11] if cc > 0 and rr > 0 and r.random() < 0.4 else []),
                   "succ": ([lid + 1] if cc + 1 < cols else []) + ([lid - 9] if cc + 1 < cols and rr > 0 and r.random() < 0.4 else []),
-                  "adj_left": [lid + 10, True] if rr + 1 < rows else None, "adj_right": [lid - 10, True] if rr > 0 else None,
+                  "adj_left": [lid + 10, r.random() < 0.8] if rr + 1 < rows else None, "adj_right": [lid - 10, r.random() < 0.8] if rr > 0 else None,
                   "lm_left": r.choice(["DASHED", "SOLID", "NO_MARKING"]), "lm_right": r.choice(["SOLID", "NO_MARKING"]),
                   "types": sorted(r.sample(["URBAN", "HIGHWAY", "COUNTRY"], r.randint(0, 2))),
                   "one_way": sorted(r.sample(["VEHICLE", "CAR", "BUS"], r.randint(0, 2))),
                   "bidir": sorted(r.sample(["BICYCLE", "PEDESTRIAN"], r.randint(0, 1))),
-                  "stop_line": r.random() < 0.25}
+                  "stop_line": r.random() < 0.25, "stop_refs": r.choice(["none", "empty", "given"])}
             lanelets.append(ll)
     spec["lanelets"] = lanelets
     lids = [l["id"] for l in lanelets]
@@ -184,7 +208,7 @@ def gen_spec(r, tiny=False):
             values = [r.choice([str(r.randint(5, 50)), "13.89", "8.33", str(r.randint(50, 300) / 10.0)])] + (["7.5"] if r.random() < 0.2 else [])
             if elem in ("STOP", "YIELD") and r.random() < 0.5:
                 values = []
-            spec["signs"].append({"id": 300 + i, "country": country, "elem": elem, "values": values,
+            spec["signs"].append({"id": 300 + i, "country": country, "elem": elem, "values": values, "second": r.random() < 0.25,
                                   "first": sorted(r.sample(lids, 1)), "pos": [_f(r, 0, 60), _f(r, 0, 8)], "virtual": r.random() < 0.3,
                                   "lanelets": sorted(r.sample(lids, r.randint(1, min(2, len(lids)))))})
         for i in range(r.choice([0, 1, 1, 2])):
@@ -192,14 +216,22 @@ def gen_spec(r, tiny=False):
             spec["lights"].append({"id": 400 + i, "cycle": [[r.randrange(5), r.randint(1, 6)] for _ in range(ne)],
                                    "offset": r.choice([0, 0, 2, 7]), "pos": [_f(r, 0, 60), _f(r, 0, 8)],
                                    "active": r.random() < 0.8, "direction": r.choice(["ALL", "LEFT", "STRAIGHT"]),
+                                   "cycle_active": r.random() < 0.8, "color": r.choice([None, None, [0, 3], [1]]),
+                                   "shape": r.random() < 0.25,
                                    "lanelets": sorted(r.sample(lids, r.randint(1, min(2, len(lids)))))})
         if len(lids) >= 2 and r.random() < 0.4:
             inc = r.sample(lids, 2)
             spec["intersections"].append({"id": 500, "incomings": [
                 {"id": 510, "lanelets": [inc[0]], "right": [], "straight": [inc[1]], "left": [], "left_of": None},
                 {"id": 511, "lanelets": [inc[1]], "right": [inc[0]], "straight": [], "left": [], "left_of": 510}],
-                "crossings": []})
-    oid = [0]
+                "crossings": r.choice([[], [], sorted(r.sample(lids, 1))])})
+    spec["areas"] = []
+    if lids and r.random() < 0.3:
+        spec["areas"].append({"id": 600, "types": sorted(r.sample(["BUS_STOP", "PARKING", "BORDER"], r.randint(0, 2))),
+                              "borders": [{"id": 610, "adjacent": r.choice([None, sorted(r.sample(lids, 1))]), "lm": r.choice([None, "SOLID"])},
+                                          {"id": 611, "adjacent": None, "lm": "DASHED"}][:r.randint(1, 2)],
+                              "lanelets": sorted(r.sample(lids, 1))})
+    oid = [r.choice([0, 0, 0, -1])]      # -1: the first obstacle gets id 0
 
     def nid():
         oid[0] += 1
@@ -222,7 +254,7 @@ def gen_spec(r, tiny=False):
                                "center_ids": sorted(r.sample(lids, 1)) if lids and r.random() < 0.5 else None,
                                "shape_ids": sorted(r.sample(lids, 1)) if lids and r.random() < 0.6 else None})
     spec["dynamic"] = []
-    for _ in range(r.choice([1, 2, 2, 3]) if not tiny else r.choice([1, 1, 2])):
+    for _ in range(r.choice([0, 1, 2, 2, 3]) if not tiny else r.choice([1, 1, 2])):
         t0 = r.choice([0, 0, 0, 1, 3])
         kind = r.choice(["traj", "traj", "traj", "traj", "set", "none"])
         shape = gen_shape(r, ("rect", "rect", "circ", "poly", "group"), (0.0, 0.0))
@@ -230,7 +262,8 @@ def gen_spec(r, tiny=False):
              "pred": None, "init_signal": gen_signal(r, t0) if r.random() < 0.4 else None,
              "signal_series": None, "center_ids": sorted(r.sample(lids, 1)) if lids and r.random() < 0.3 else None,
              "shape_ids": sorted(r.sample(lids, 1)) if lids and r.random() < 0.5 else None,
-             "meta": r.random() < 0.2, "external_id": r.choice([None, None, 77]), "history": r.random() < 0.2}
+             "meta": r.random() < 0.2, "external_id": r.choice([None, None, 77]), "history": r.random() < 0.2,
+             "meta_series": r.random() < 0.15, "signal_history": r.random() < 0.15, "ids_history": r.random() < 0.15}
         if kind == "traj":
             cls = r.choice(STATE_CLASSES + ["custom-vvy", "pm", "ks"])
             if shape[0] == "group" and cls == "ks-unc":
@@ -322,7 +355,7 @@ DRAW_FLAGS = [
 ]
 
 
-def gen_draw(r, whats):
+def gen_draw(r, whats, focus_ids=()):
     tb = r.choice([0, 0, 1, 2, 5])
     flags = []
     if r.random() < 0.6:
@@ -330,9 +363,22 @@ def gen_draw(r, whats):
     for path, vals in r.sample(DRAW_FLAGS, r.randint(0, 4)):
         if all(f[0] != path for f in flags):
             flags.append([path, r.choice(vals)])
-    return ["draw", {"what": r.choice(whats), "tb": tb, "te": tb + r.choice([1, 3, 6]),
-                     "occ": r.random() < 0.5, "traj": r.random() < 0.5, "icon": r.random() < 0.2,
-                     "init": r.random() < 0.3, "hist": r.random() < 0.2, "flags": flags}]
+    d = {"what": r.choice(whats), "tb": tb, "te": tb + r.choice([1, 3, 6]),
+         "occ": r.random() < 0.5, "traj": r.random() < 0.5, "icon": r.random() < 0.2,
+         "init": r.random() < 0.3, "hist": r.random() < 0.2, "flags": flags}
+    # the renderer's own arguments and its reuse for several drawings
+    if r.random() < 0.3:
+        d["reuse"] = r.choice([1, 2])
+        d["keep"] = r.random() < 0.5
+    if r.random() < 0.2:
+        d["limits"] = [-10.0, 70.0, -5.0, 15.0]
+    if r.random() < 0.15:
+        d["file"] = True
+    if focus_ids and r.random() < 0.2:
+        d["focus"] = r.choice(focus_ids)
+    if d["what"] in ("scenario", "both") and r.random() < 0.08:
+        d["video"] = r.choice(["default", "params"])
+    return ["draw", d]
 
 
 def gen_ops(r, spec, n=None, allow_draw=True):
@@ -347,9 +393,16 @@ def gen_ops(r, spec, n=None, allow_draw=True):
             "pickle", "write_xml", "write_xml", "write_pb", "write_pb", "write_pb", "str", "by_role", "by_interval", "signal", "lanelet_q",
             "map_obstacles", "final_time", "traj_q", "net_copy", "lanelet_q", "most_likely", "dyn_by_time", "dyn_by_time", "get_obstacles",
             "map_obstacles", "by_interval"]
+    kinds += list(NEW_KINDS)       # the read-only entry points added by the generator audit (c18_dims.OPERATIONS), once each
     if allow_draw:
         kinds += ["draw"]
     targets = ["scenario", "pps", "net"] + [["obstacle", i] for i in all_ids] + [["problem", p["id"]] for p in spec["problems"]]
+    # parts of the scenario as targets of ==, hash, copy, deepcopy, pickle, str (the model knows the five kinds above; the rest is `reads`)
+    parts = [["lanelet", i] for i in lids] + [["light", x["id"]] for x in spec["lights"]] + [["sign", x["id"]] for x in spec["signs"]] + \
+            [["intersection", x["id"]] for x in spec["intersections"]] + [["goal", p["id"]] for p in spec["problems"]] + \
+            [[w, d["id"]] for d in dyn for w in ("init_state", "shape")] + \
+            [[w, d["id"]] for d in dyn if d["pred"] for w in ("prediction",)] + \
+            [[w, d["id"]] for d in dyn if d["pred"] and d["pred"]["kind"] == "traj" for w in ("trajectory", "traj_state")]
 
     def some_t(d=None):
         if d is not None:
@@ -367,9 +420,10 @@ def gen_ops(r, spec, n=None, allow_draw=True):
     for _ in range(n):
         k = r.choice(kinds)
         if k == "occ":
-            i = r.choice(occ_ids)
-            d = next((d for d in dyn if d["id"] == i), None)
-            ops.append(["occ", i, some_t(d)])
+            if occ_ids:
+                i = r.choice(occ_ids)
+                d = next((d for d in dyn if d["id"] == i), None)
+                ops.append(["occ", i, some_t(d)])
         elif k == "state":
             roles = ("static", "dynamic")
             ids = _obstacle_ids(spec, roles)
@@ -417,9 +471,10 @@ def gen_ops(r, spec, n=None, allow_draw=True):
                 t1 = r.randint(0, 8)
                 ops.append(["goal_reached", r.choice(spec["problems"])["id"], t1, gen_traj_states(r, cls, t1, r.randint(1, 3))])
         elif k in ("eq", "hash", "copy", "deepcopy", "pickle", "str"):
-            ops.append([k, r.choice(targets[:3] * 3 + targets)])
+            ops.append([k, r.choice(targets[:3] * 3 + targets + (parts if r.random() < 0.5 and parts else []))])
         elif k == "draw":
-            ops.append(gen_draw(r, ["scenario", "both", "both", "pps", "signs", "lights", "network", "obstacles"]))
+            ops.append(gen_draw(r, ["scenario", "both", "both", "pps", "signs", "lights", "network", "obstacles", "goal", "trajectories", "list"],
+                                [d["id"] for d in dyn]))
         elif k == "write_xml":
             ops.append(["write_xml", r.choice(["full", "full", "scenario"])])
         elif k == "write_pb":
@@ -427,7 +482,9 @@ def gen_ops(r, spec, n=None, allow_draw=True):
         elif k == "by_role":
             ops.append(["by_role", r.choice([None, "DYNAMIC", "STATIC"]), r.choice([None, "CAR"])])
         elif k == "by_interval":
-            ops.append(["by_interval", [_f(r, -10, 20), _f(r, 30, 70)], [_f(r, -5, 2), _f(r, 5, 15)], some_t()])
+            roles = r.choice([None, None, ["DYNAMIC"], ["STATIC", "Phantom"], ["DYNAMIC", "STATIC", "Phantom", "ENVIRONMENT"], ["ENVIRONMENT"]])
+            ops.append(["by_interval", [_f(r, -10, 20), _f(r, 30, 70)], [_f(r, -5, 2), _f(r, 5, 15)], r.choice([some_t(), some_t(), None])]
+                       + ([roles] if roles else []))
         elif k == "signal":
             c = _obstacle_ids(spec, ("static", "dynamic"))
             if c:
@@ -441,15 +498,136 @@ def gen_ops(r, spec, n=None, allow_draw=True):
             if lids:
                 ops.append(["lanelet_q", r.choice(lids), "dyn_by_time" if k == "dyn_by_time" else "obstacles", pts()])
         elif k == "net_copy":
-            ops.append(["net_copy", r.choice(["network", "list", "shape"])])
+            ops.append(["net_copy", r.choice(["network", "list", "shape", "exclude"]), r.random() < 0.7])
         elif k == "most_likely":
             if lids:
                 ops.append(["most_likely", [[20.0 * r.randint(0, 2) + 3.0625, 2.0625, _f(r, -1, 1)]]])
         elif k == "map_obstacles":
             ops.append(["map_obstacles", r.choice(["map", "map", "filter"]), r.choice(["static", "static", "all"])])
+        elif k in NEW_KINDS:
+            op = gen_new_op(r, spec, k, some_t, pts)
+            if op:
+                ops.append(op)
     if not ops:
         ops.append(["occs", 0, None])
     return ops
+
+
+NEW_KINDS = ("net_find", "pred_q", "state_q", "pps_find", "cycle_q", "shape_q", "interval_q", "sign_interp", "viz_util", "read_back", "write_x",
+             "scenario_id_q", "lanelet_merge_direct")
+
+
+def gen_new_op(r, spec, k, some_t, pts):
+    dyn = spec["dynamic"]
+    lids = [l["id"] for l in spec["lanelets"]]
+    if k == "net_find":
+        return ["net_find", r.choice(["area", "intersection", "sign", "sign_refs", "light_refs", "polygons"]),
+                r.choice([600, 500, 300, 301, 400, 401, 999])]
+    if k == "pred_q":
+        c = [d["id"] for d in dyn if d["pred"]] + [x["id"] for x in spec["phantom"] if x["occs"]]
+        return ["pred_q", r.choice(c), some_t()] if c else None
+    if k == "state_q":
+        c = [d for d in dyn if d["pred"] and d["pred"]["kind"] == "traj"]
+        owners = [["init", o["id"], 0] for o in spec["static"] + dyn] + [["traj", d["id"], r.randrange(len(d["pred"]["states"]))] for d in c] + \
+                 [["problem", p["id"], 0] for p in spec["problems"]]
+        return ["state_q", r.choice(owners), r.choice(["has_value", "convert", "array", "occupancy_shape", "translate", "draw_state"])] if owners else None
+    if k == "pps_find":
+        return ["pps_find", r.choice([900, 901, 999])]
+    if k == "cycle_q":
+        return ["cycle_q", r.choice(spec["lights"])["id"], r.choice([0, 1, 5, 13]), r.choice(["state", "init_steps"])] if spec["lights"] else None
+    if k == "shape_q":
+        owners = [["obstacle", i] for i in _obstacle_ids(spec, ("static", "dynamic", "env"))] + \
+                 [["goal", p["id"], g] for p in spec["problems"] for g, gs in enumerate(p["goals"]) if any(a[0] == "position" for a in gs["attrs"])] + \
+                 [["occupancy", d["id"]] for d in dyn if d["pred"] and d["pred"]["kind"] == "set"] + [["lanelet", i] for i in lids]
+        return ["shape_q", r.choice(owners), r.choice(["contains", "shapely", "translate", "local", "attrs", "draw"]), pts()[0]] if owners else None
+    if k == "interval_q":
+        return ["interval_q", r.choice(spec["problems"])["id"], _f(r, -3, 10), r.choice(["contains", "overlaps", "intersection"])] if spec["problems"] else None
+    if k == "sign_interp":
+        return ["sign_interp", r.choice(["GERMANY", "USA", "SPAIN", "ARGENTINA"]), sorted(r.sample(lids, r.randint(1, min(2, len(lids)))))] if lids else None
+    if k == "viz_util":
+        return ["viz_util", r.choice(["bbox", "colors"]), some_t()]
+    if k == "read_back":
+        return ["read_back", r.choice(["xml", "pb"]), r.choice(["open", "open_assign", "network"])]
+    if k == "write_x":
+        return ["write_x", {"fmt": r.choice(["xml", "pb"]), "direct": r.random() < 0.4, "precision": r.choice([4, 2, 8]),
+                            "check": r.random() < 0.3, "args": r.random() < 0.4, "location": r.random() < 0.3,
+                            "seq": r.choice([["full"], ["full", "scenario"], ["scenario", "full", "full"], ["full", "skip"]])}]
+    if k == "scenario_id_q":
+        return ["scenario_id_q"]
+    if k == "lanelet_merge_direct":
+        c = [l for l in spec["lanelets"] if l["succ"]]
+        if not c:
+            return None
+        l = r.choice(c)
+        return ["lanelet_q", l["id"], "merge_direct", [[float(l["succ"][0]), float(r.random() < 0.5)]]]
+    return None
+
+
+def gen_pre(r, spec):
+    """a HISTORY before the read-only sequence: queries that fill caches, documented mutators, a failing mutator, setters
+    that get their own value back — applied in the same way to the scenario under test, its twin and the auxiliary copy"""
+    pre = []
+    dyn = spec["dynamic"]
+    trajs = [d for d in dyn if d["pred"] and d["pred"]["kind"] == "traj"]
+    lids = [l["id"] for l in spec["lanelets"]]
+    for _ in range(r.choice([1, 2, 3, 4])):
+        k = r.choice(["query", "translate", "assign", "set_same_traj", "set_same_shape", "set_same_vertices", "offset", "remove_readd", "gen_id",
+                      "failed_add", "light_query"])
+        if k in ("query", "set_same_traj", "set_same_shape") and trajs:
+            d = r.choice(trajs)
+            pre.append([k, d["id"], d["pred"]["t1"]])
+        elif k == "translate":
+            pre.append(["translate", r.choice([0.0, 3.5, -120.25]), r.choice([0.0, -2.0]), r.choice([0.0, 0.25, -1.5])])
+        elif k in ("assign", "gen_id", "failed_add"):
+            pre.append([k])
+        elif k == "set_same_vertices" and lids:
+            pre.append([k, r.choice(lids)])
+        elif k in ("offset", "light_query") and spec["lights"]:
+            pre.append([k, r.choice(spec["lights"])["id"], r.choice([0, 3, 11])])
+        elif k == "remove_readd" and (dyn or spec["static"]):
+            pre.append([k, r.choice(dyn + spec["static"])["id"]])
+    return pre
+
+
+def apply_pre(sc, pps, pre):
+    import numpy as np
+    for p in pre:
+        with warnings.catch_warnings():
+            warnings.simplefilter("ignore")
+            try:
+                k = p[0]
+                if k == "query":
+                    sc.obstacle_by_id(p[1]).occupancy_at_time(p[2])
+                elif k == "translate":
+                    sc.translate_rotate(np.array([p[1], p[2]]), p[3])
+                    pps.translate_rotate(np.array([p[1], p[2]]), p[3])
+                elif k == "assign":
+                    sc.assign_obstacles_to_lanelets()
+                elif k == "set_same_traj":
+                    pr = sc.obstacle_by_id(p[1]).prediction
+                    pr.trajectory = pr.trajectory
+                elif k == "set_same_shape":
+                    pr = sc.obstacle_by_id(p[1]).prediction
+                    pr.shape = pr.shape
+                elif k == "set_same_vertices":
+                    l = sc.lanelet_network.find_lanelet_by_id(p[1])
+                    l.left_vertices = l.left_vertices
+                    l.center_vertices = l.center_vertices
+                elif k == "light_query":
+                    sc.lanelet_network.find_traffic_light_by_id(p[1]).get_state_at_time_step(p[2])
+                elif k == "offset":
+                    sc.lanelet_network.find_traffic_light_by_id(p[1]).traffic_light_cycle.time_offset = p[2]
+                elif k == "remove_readd":
+                    o = sc.obstacle_by_id(p[1])
+                    sc.remove_obstacle(o)
+                    sc.add_objects(o)
+                elif k == "gen_id":
+                    sc.generate_object_id()
+                elif k == "failed_add":
+                    o = (sc.static_obstacles + sc.dynamic_obstacles)[0]
+                    sc.add_objects([o])              # the id is taken: ValueError; the scenario is used on afterwards
+            except Exception:  # noqa  (a mutator that fails is part of the history; all three copies fail alike)
+                pass
 
 
 def gen_case(ctx, tiny=False, allow_draw=True, recipe=None):
@@ -518,7 +696,10 @@ def gen_case(ctx, tiny=False, allow_draw=True, recipe=None):
     ops = gen_ops(r, spec, allow_draw=allow_draw)
     if allow_draw and not any(o[0] == "draw" for o in ops):
         ops.insert(r.randint(0, len(ops)), gen_draw(r, ["scenario", "scenario", "both", "both", "signs", "network"]))
-    return {"spec": spec, "ops": ops}
+    case = {"spec": spec, "ops": ops}
+    if r.random() < 0.5:
+        case["pre"] = gen_pre(r, spec)
+    return case
 
 
 # ------------------------------------------------------------------------------------------------ builder (public constructors)
@@ -604,14 +785,23 @@ def build(spec):
     if sid is None:
         scenario_id = ScenarioID()
     else:
-        scenario_id = ScenarioID(country_id=sid[0], map_name=sid[1], map_id=sid[2], configuration_id=sid[3], obstacle_behavior=sid[4],
-                                 prediction_id=sid[5])
+        scenario_id = ScenarioID(cooperative=bool(sid[6]) if len(sid) > 6 else False, country_id=sid[0], map_name=sid[1], map_id=sid[2],
+                                 configuration_id=sid[3], obstacle_behavior=sid[4], prediction_id=sid[5])
     loc = None
-    if spec.get("location"):
-        loc = Location(geo_name_id=2867714, gps_latitude=48.25, gps_longitude=11.5, geo_transformation=GeoTransformation("ref", 1.0, 2.0, 0.5, 1.0),
-                       environment=Environment(Time(12, 15), TimeOfDay.NIGHT, Weather.FOG, Underground.DIRTY))
+    lspec = spec.get("location")
+    if lspec is True:        # cases stored before the location arguments were varied
+        lspec = {"geo_name_id": 2867714, "lat": 48.25, "lon": 11.5, "geo": ["ref", 1.0, 2.0, 0.5, 1.0], "env": [12, 15, None, None, None, "NIGHT", "FOG", "DIRTY"]}
+    if lspec:
+        e = lspec["env"]
+        loc = Location(geo_name_id=lspec["geo_name_id"], gps_latitude=lspec["lat"], gps_longitude=lspec["lon"],
+                       geo_transformation=GeoTransformation(*lspec["geo"]) if lspec["geo"] else None,
+                       environment=Environment(Time(e[0], e[1], e[2], e[3], e[4]), TimeOfDay[e[5]], Weather[e[6]], Underground[e[7]]) if e else None)
     sc = Scenario(spec["dt"], scenario_id, author="A. Uthor", tags={Tag[t] for t in spec["tags"]}, affiliation="TUM", source="generated",
                   location=loc)
+    mi = spec.get("map_info")
+    if mi:
+        from commonroad.scenario.lanelet import MapInformation
+        sc.lanelet_network.information = MapInformation(mi[0], mi[1], Time(*mi[2]) if mi[2] else Time(0, 0), mi[3], mi[4], mi[5], mi[6], mi[7])
     for l in spec["lanelets"]:
         x0, y0 = 20.0 * l["col"], 4.0 * l["row"]
         xs = np.linspace(x0, x0 + 20.0, l["n"])
@@ -621,7 +811,10 @@ def build(spec):
         center = np.stack([xs, y0 + 2.0 + bend], axis=1)
         sl = None
         if l["stop_line"]:
-            sl = StopLine(np.array([x0 + 19.0, y0]), np.array([x0 + 19.0, y0 + 4.0]), LineMarking.SOLID, set(), set())
+            refs = l.get("stop_refs", "empty")
+            sign_ref = {x["id"] for x in spec["signs"]} if refs == "given" else (set() if refs == "empty" else None)
+            light_ref = {x["id"] for x in spec["lights"]} if refs == "given" else (set() if refs == "empty" else None)
+            sl = StopLine(np.array([x0 + 19.0, y0]), np.array([x0 + 19.0, y0 + 4.0]), LineMarking.SOLID, sign_ref, light_ref)
         sc.add_objects(Lanelet(left, center, right, l["id"], predecessor=list(l["pred"]), successor=list(l["succ"]),
                                adjacent_left=l["adj_left"][0] if l["adj_left"] else None,
                                adjacent_left_same_direction=l["adj_left"][1] if l["adj_left"] else None,
@@ -632,13 +825,24 @@ def build(spec):
                                user_one_way={RoadUser[t] for t in l["one_way"]}, user_bidirectional={RoadUser[t] for t in l["bidir"]}))
     for s in spec["signs"]:
         import commonroad.scenario.traffic_sign as _ts
-        sc.add_objects(TrafficSign(s["id"], [TrafficSignElement(getattr(_ts, "TrafficSignID" + s.get("country", "Zamunda"))[s["elem"]], list(s["values"]))], set(s["first"]),
-                                   _np(s["pos"]), s["virtual"]), set(s["lanelets"]))
+        enum_cls = getattr(_ts, "TrafficSignID" + s.get("country", "Zamunda"))
+        elements = [TrafficSignElement(enum_cls[s["elem"]], list(s["values"]))]
+        if s.get("second"):
+            elements.append(TrafficSignElement(enum_cls["MAX_SPEED"], ["22.25"]))
+        sc.add_objects(TrafficSign(s["id"], elements, set(s["first"]), _np(s["pos"]), s["virtual"]), set(s["lanelets"]))
     tls = list(TrafficLightState)
     for s in spec["lights"]:
-        cyc = TrafficLightCycle([TrafficLightCycleElement(tls[a], d) for a, d in s["cycle"]], time_offset=s["offset"], active=s["active"])
-        sc.add_objects(TrafficLight(s["id"], _np(s["pos"]), cyc, active=s["active"], direction=TrafficLightDirection[s["direction"]]),
-                       set(s["lanelets"]))
+        from commonroad.geometry.shape import Rectangle as _Rect
+        cyc = TrafficLightCycle([TrafficLightCycleElement(tls[a], d) for a, d in s["cycle"]], time_offset=s["offset"],
+                                active=s.get("cycle_active", s["active"]))
+        sc.add_objects(TrafficLight(s["id"], _np(s["pos"]), cyc, color=[tls[c] for c in s["color"]] if s.get("color") else None, active=s["active"],
+                                    direction=TrafficLightDirection[s["direction"]],
+                                    shape=_Rect(0.5, 1.25, _np(s["pos"]), 0.0) if s.get("shape") else None), set(s["lanelets"]))
+    for a in spec.get("areas", []):
+        from commonroad.scenario.area import Area, AreaBorder, AreaType
+        borders = [AreaBorder(b["id"], np.array([[1.0 + i, -2.0], [9.0 + i, -2.0 - i]]), adjacent=list(b["adjacent"]) if b["adjacent"] else None,
+                              line_marking=LineMarking[b["lm"]] if b["lm"] else None) for i, b in enumerate(a["borders"])]
+        sc.lanelet_network.add_area(Area(a["id"], borders, {AreaType[t] for t in a["types"]}), set(a["lanelets"]))
     for s in spec["intersections"]:
         incs = [IntersectionIncomingElement(i["id"], set(i["lanelets"]), set(i["right"]), set(i["straight"]), set(i["left"]), i["left_of"])
                 for i in s["incomings"]]
@@ -668,7 +872,11 @@ def build(spec):
                                        initial_shape_lanelet_ids=set(o["shape_ids"]) if o["shape_ids"] is not None else None,
                                        initial_signal_state=mk_signal(o["init_signal"]) if o["init_signal"] else None,
                                        signal_series=[mk_signal(f) for f in o["signal_series"]] if o["signal_series"] is not None else None,
-                                       initial_meta_information_state=meta, external_dataset_id=o["external_id"], history=hist))
+                                       initial_meta_information_state=meta, external_dataset_id=o["external_id"], history=hist,
+                                       meta_information_series=[MetaInformationState({"k": "v"}, None, None, None)] if o.get("meta_series") else None,
+                                       signal_history=[mk_signal([["time_step", 0], ["horn", True]])] if o.get("signal_history") else None,
+                                       center_lanelet_ids_history=[{101}, set()] if o.get("ids_history") else None,
+                                       shape_lanelet_ids_history=[{100, 101}] if o.get("ids_history") else None))
     for o in spec["env"]:
         sc.add_objects(EnvironmentObstacle(o["id"], ObstacleType[o["type"]], mk_shape(o["shape"])))
     for o in spec["phantom"]:
@@ -889,7 +1097,22 @@ def _target(sc, pps, t):
         return sc.lanelet_network
     if t[0] == "obstacle":
         return sc.obstacle_by_id(t[1])
-    return pps.planning_problem_dict[t[1]]
+    if t[0] == "problem":
+        return pps.planning_problem_dict[t[1]]
+    net = sc.lanelet_network
+    if t[0] == "lanelet":
+        return net.find_lanelet_by_id(t[1])
+    if t[0] == "light":
+        return net.find_traffic_light_by_id(t[1])
+    if t[0] == "sign":
+        return net.find_traffic_sign_by_id(t[1])
+    if t[0] == "intersection":
+        return net.find_intersection_by_id(t[1])
+    if t[0] == "goal":
+        return pps.planning_problem_dict[t[1]].goal
+    o = sc.obstacle_by_id(t[1])
+    return {"init_state": lambda: o.initial_state, "shape": lambda: o.obstacle_shape, "prediction": lambda: o.prediction,
+            "trajectory": lambda: o.prediction.trajectory, "traj_state": lambda: o.prediction.trajectory.state_list[-1]}[t[0]]()
 
 
 def _occ_out(o):
@@ -928,7 +1151,14 @@ def run_op(ctx, sc, pps, op, twin):
         return str(ft)
     if k == "traj_q":
         tr = sc.obstacle_by_id(op[1]).prediction.trajectory
-        return [None if s is None else int(s.time_step) for s in tr.states_in_time_interval(op[2], op[3])] + [int(tr.final_state.time_step)]
+        out = [None if s is None else int(s.time_step) for s in tr.states_in_time_interval(op[2], op[3])] + [int(tr.final_state.time_step)]
+        out.append(tr.state_at_time_step(op[2]) is not None)
+        out.append(len(tr.check_state_list(tr.state_list)))
+        from commonroad.scenario.trajectory import Trajectory
+        n = len(tr.state_list)
+        res = call(Trajectory.resample_continuous_time_state_list, tr.state_list, np.arange(n) * 0.5, 0.25, max(1, 2 * n - 1))
+        out.append(len(res[1].state_list) if res[0] == "ok" else res[1])
+        return out
     if k == "find_pos":
         return [sorted(int(i) for i in ids) for ids in net.find_lanelet_by_position([np.array(p) for p in op[1]])]
     if k == "find_shape":
@@ -973,7 +1203,7 @@ def run_op(ctx, sc, pps, op, twin):
         x = _target(sc, pps, op[1])
         return len(str(x)) >= 0 and len(repr(x)) >= 0
     if k == "draw":
-        return do_draw(sc, pps, op[1])
+        return do_draw(sc, pps, dict(op[1], dir=ctx.tmpdir()))
     if k in ("write_xml", "write_pb"):
         res = export(ctx, sc, pps, "xml" if k == "write_xml" else "pb", op[1])
         _LAST["export"] = res
@@ -982,6 +1212,9 @@ def run_op(ctx, sc, pps, op, twin):
         return [o.obstacle_id for o in sc.obstacles_by_role_and_type(ObstacleRole[op[1]] if op[1] else None, ObstacleType[op[2]] if op[2] else None)]
     if k == "by_interval":
         from commonroad.common.util import Interval
+        if len(op) > 4:
+            return [o.obstacle_id for o in sc.obstacles_by_position_intervals([Interval(*op[1]), Interval(*op[2])],
+                                                                              tuple(ObstacleRole[x] for x in op[4]), op[3])]
         return [o.obstacle_id for o in sc.obstacles_by_position_intervals([Interval(*op[1]), Interval(*op[2])], time_step=op[3])]
     if k == "signal":
         s = sc.obstacle_by_id(op[1]).signal_state_at_time_step(op[2])
@@ -1004,6 +1237,12 @@ def run_op(ctx, sc, pps, op, twin):
             from commonroad.scenario.lanelet import Lanelet
             ls, ids = Lanelet.all_lanelets_by_merging_successors_from_lanelet(l, net, 60.0)
             return [ids, [_regs(m) for m in ls]]
+        if q == "merge_direct":
+            from commonroad.scenario.lanelet import Lanelet
+            other = net.find_lanelet_by_id(int(op[3][0][0]))
+            m = Lanelet.merge_lanelets(other, l) if op[3][0][1] else Lanelet.merge_lanelets(l, other)
+            first = other if op[3][0][1] else l
+            return [[[first.lanelet_id, (l if op[3][0][1] else other).lanelet_id]], [_regs(m)]]
         if q == "merge_pred":
             from commonroad.scenario.lanelet import Lanelet
             ls, ids = Lanelet.all_lanelets_by_merging_predecessors_from_lanelet(l, net, 60.0)
@@ -1018,13 +1257,19 @@ def run_op(ctx, sc, pps, op, twin):
             return [float(l.distance[-1]), float(l.inner_distance[-1])]
     if k == "net_copy":
         from commonroad.scenario.lanelet import LaneletNetwork
+        cleanup = op[2] if len(op) > 2 else True
         if op[1] == "network":
-            c = LaneletNetwork.create_from_lanelet_network(net)
+            c = LaneletNetwork.create_from_lanelet_network(net, cleanup_ids=cleanup)
         elif op[1] == "shape":
-            c = LaneletNetwork.create_from_lanelet_network(net, mk_shape(["rect", 30.0, 6.0, 20.0, 2.0, 0.0]))
+            c = LaneletNetwork.create_from_lanelet_network(net, mk_shape(["rect", 30.0, 6.0, 20.0, 2.0, 0.0]), cleanup_ids=cleanup)
+        elif op[1] == "exclude":
+            from commonroad.common.common_lanelet import LaneletType
+            c = LaneletNetwork.create_from_lanelet_network(net, exclude_lanelet_types={LaneletType.URBAN}, cleanup_ids=cleanup)
         else:
-            c = LaneletNetwork.create_from_lanelet_list(net.lanelets)
+            c = LaneletNetwork.create_from_lanelet_list(net.lanelets, cleanup_ids=cleanup)
         return sorted(l.lanelet_id for l in c.lanelets)
+    if k in NEW_KINDS:
+        return run_new_op(ctx, sc, pps, op)
     if k == "most_likely":
         from commonroad.scenario.state import KSState
         sts = [KSState(time_step=0, position=np.array([a, b]), orientation=c) for a, b, c in op[1]]
@@ -1035,6 +1280,172 @@ def run_op(ctx, sc, pps, op, twin):
             return {str(a): [o.obstacle_id for o in b] for a, b in net.map_obstacles_to_lanelets(obs).items()}
         return [o.obstacle_id for o in net.filter_obstacles_in_network(obs)]
     raise ValueError(f"unknown op {op}")
+
+
+def _owned_state(sc, pps, owner):
+    if owner[0] == "init":
+        return sc.obstacle_by_id(owner[1]).initial_state
+    if owner[0] == "traj":
+        return sc.obstacle_by_id(owner[1]).prediction.trajectory.state_list[owner[2]]
+    return pps.planning_problem_dict[owner[1]].initial_state
+
+
+def _owned_shape(sc, pps, owner):
+    if owner[0] == "obstacle":
+        return sc.obstacle_by_id(owner[1]).obstacle_shape
+    if owner[0] == "goal":
+        return pps.planning_problem_dict[owner[1]].goal.state_list[owner[2]].position
+    if owner[0] == "occupancy":
+        return sc.obstacle_by_id(owner[1]).prediction.occupancy_set[0].shape
+    return sc.lanelet_network.find_lanelet_by_id(owner[1]).polygon
+
+
+def run_new_op(ctx, sc, pps, op):
+    """the read-only entry points added by the generator audit; all of them are `reads` for the model"""
+    import numpy as np
+    k = op[0]
+    net = sc.lanelet_network
+    if k == "net_find":
+        w, i = op[1], op[2]
+        if w == "area":
+            x = net.find_area_by_id(i)
+            return None if x is None else x.area_id
+        if w == "intersection":
+            x = net.find_intersection_by_id(i)
+            return None if x is None else x.intersection_id
+        if w == "sign":
+            x = net.find_traffic_sign_by_id(i)
+            return None if x is None else x.traffic_sign_id
+        if w == "sign_refs":
+            return sorted(l.lanelet_id for l in net.get_traffic_sign_referenced_lanelets(i))
+        if w == "light_refs":
+            return sorted(l.lanelet_id for l in net.get_traffic_lights_referenced_lanelets(i))
+        return [len(p.vertices) for p in net.lanelet_polygons]
+    if k == "pred_q":
+        pr = sc.obstacle_by_id(op[1]).prediction
+        return [_occ_out(pr.occupancy_at_time_step(op[2])), int(pr.initial_time_step), str(pr.final_time_step)]
+    if k == "state_q":
+        st = _owned_state(sc, pps, op[1])
+        q = op[2]
+        if q == "has_value":
+            return [st.has_value(n) for n in ("position", "orientation", "velocity", "velocity_y", "jerk")]
+        if q == "convert":
+            from commonroad.scenario.state import KSState, PMState
+            return [sorted(st.convert_state_to_state(KSState()).used_attributes), sorted(st.convert_state_to_state(PMState()).used_attributes)]
+        if q == "array":
+            return [repr(float(x)) for x in np.array(st, dtype=object).tolist()] if type(st).__name__ != "CustomState" else len(st.attributes)
+        if q == "occupancy_shape":
+            from commonroad.geometry.shape import Rectangle, occupancy_shape_from_state
+            return type(occupancy_shape_from_state(Rectangle(4.0, 2.0), st)).__name__
+        if q == "translate":
+            return sorted(st.translate_rotate(np.array([1.0, -2.0]), 0.5).used_attributes)
+        return do_draw(sc, pps, {"dir": ctx.tmpdir(), "what": "states", "owner": op[1], "tb": 0, "te": 2, "occ": False, "traj": False, "icon": False, "init": False,
+                                 "hist": False, "flags": [["state.draw_arrow", True]]})
+    if k == "pps_find":
+        return pps.find_planning_problem_by_id(op[1]).planning_problem_id
+    if k == "cycle_q":
+        cyc = net.find_traffic_light_by_id(op[1]).traffic_light_cycle
+        if op[3] == "state":
+            return cyc.get_state_at_time_step(op[2]).name
+        return [int(x) for x in cyc.cycle_init_timesteps]
+    if k == "shape_q":
+        from commonroad.geometry.shape import ShapeGroup
+        sh = _owned_shape(sc, pps, op[1])
+        q = op[2]
+        if q == "contains":
+            return bool(sh.contains_point(np.array(op[3])))
+        if q == "shapely":
+            parts = sh.shapes if isinstance(sh, ShapeGroup) else [sh]
+            return [round(p.shapely_object.area, 6) for p in parts]
+        if q == "translate":
+            return type(sh.translate_rotate(np.array([2.0, 1.0]), 0.25)).__name__
+        if q == "local":
+            return type(sh.rotate_translate_local(np.array([2.0, 1.0]), 0.25)).__name__
+        if q == "attrs":
+            return [n for n in ("center", "vertices", "length", "width", "orientation", "radius", "shapes") if getattr(sh, n, None) is not None]
+        return do_draw(sc, pps, {"dir": ctx.tmpdir(), "what": "shape", "owner": op[1], "tb": 0, "te": 2, "occ": False, "traj": False, "icon": False, "init": False,
+                                 "hist": False, "flags": []})
+    if k == "interval_q":
+        from commonroad.common.util import AngleInterval, Interval
+        out = []
+        for g in pps.planning_problem_dict[op[1]].goal.state_list:
+            for n in g.used_attributes:
+                iv = getattr(g, n)
+                if isinstance(iv, AngleInterval):
+                    out.append([n, {"contains": lambda: bool(iv.contains(max(-6.0, min(6.0, op[2])))), "overlaps": lambda: bool(iv.overlaps(AngleInterval(0.0, 1.0))),
+                                    "intersection": lambda: str(iv.intersection(AngleInterval(-1.0, 1.0)))}[op[3]]()])
+                elif isinstance(iv, Interval):
+                    out.append([n, {"contains": lambda: bool(iv.contains(op[2])), "overlaps": lambda: bool(iv.overlaps(Interval(0, 5))),
+                                    "intersection": lambda: str(iv.intersection(Interval(0, 100)))}[op[3]]()])
+        return out
+    if k == "sign_interp":
+        from commonroad.scenario.traffic_sign import SupportedTrafficSignCountry
+        from commonroad.scenario.traffic_sign_interpreter import TrafficSignInterpreter
+        ti = TrafficSignInterpreter(SupportedTrafficSignCountry[op[1]], net)
+        ids = frozenset(op[2])
+        return [_canon_out(ti.speed_limit(ids)), _canon_out(ti.required_speed(ids))]
+    if k == "viz_util":
+        from commonroad.visualization.util import approximate_bounding_box_dyn_obstacles, collect_center_line_colors
+        if op[1] == "bbox":
+            b = approximate_bounding_box_dyn_obstacles(sc.dynamic_obstacles, op[2])
+            return None if b is None else _canon_out([[float(x) for x in part] for part in b])
+        return {str(a): b.name for a, b in collect_center_line_colors(net, net.traffic_lights, op[2]).items()}
+    if k == "read_back":
+        from commonroad.common.file_reader import CommonRoadFileReader
+        res = export(ctx, sc, pps, op[1])
+        if res[0] != "ok":
+            return "not-written:" + res[1]
+        path = os.path.join(ctx.tmpdir(), f"out.{op[1]}")
+        rd = CommonRoadFileReader(path)
+        if op[2] == "network":
+            return len(rd.open_lanelet_network().lanelets)
+        sc2, pps2 = rd.open(lanelet_assignment=(op[2] == "open_assign"))
+        return [len(sc2.obstacles), len(pps2.planning_problem_dict)]
+    if k == "write_x":
+        return do_write_x(ctx, sc, pps, op[1])
+    if k == "scenario_id_q":
+        from commonroad.scenario.scenario import ScenarioID
+        sid = sc.scenario_id
+        return [str(sid), str(ScenarioID.from_benchmark_id(str(sid), sid.scenario_version)), sid.country_name, str(sid.prediction_type)]
+    raise ValueError(f"unknown op {op}")
+
+
+def do_write_x(ctx, sc, pps, p):
+    """the writers through their other entry points: the format classes themselves, explicit header arguments, another decimal
+    precision, check_validity, and ONE writer object used for several writes (to_file / scenario_to_file, SKIP on an existing file)"""
+    from commonroad.common.file_writer import CommonRoadFileWriter
+    from commonroad.common.util import FileFormat
+    from commonroad.common.writer.file_writer_interface import OverwriteExistingFile
+    from commonroad.common.writer.file_writer_protobuf import ProtobufFileWriter
+    from commonroad.common.writer.file_writer_xml import XMLFileWriter
+    from commonroad.scenario.scenario import Location, Tag
+    kw = {"decimal_precision": p["precision"]}
+    if p["args"]:
+        kw.update(author="Somebody Else", affiliation="Elsewhere", source="hand", tags={Tag.HIGHWAY})
+    if p["location"]:
+        kw["location"] = Location()
+    with warnings.catch_warnings(), contextlib_redirect():
+        warnings.simplefilter("ignore")
+        try:
+            if p["direct"]:
+                w = (XMLFileWriter if p["fmt"] == "xml" else ProtobufFileWriter)(sc, pps, **kw)
+            else:
+                w = CommonRoadFileWriter(sc, pps, file_format=FileFormat.XML if p["fmt"] == "xml" else FileFormat.PROTOBUF, **kw)
+            out = []
+            path = os.path.join(ctx.tmpdir(), f"x.{p['fmt']}")
+            for how in p["seq"]:
+                if how == "full":
+                    w.write_to_file(path, OverwriteExistingFile.ALWAYS, check_validity=p["check"])
+                elif how == "skip":
+                    w.write_to_file(path, OverwriteExistingFile.SKIP)
+                else:
+                    w.write_scenario_to_file(path, OverwriteExistingFile.ALWAYS)
+                out.append(os.path.getsize(path) > 0)
+            return out
+        finally:
+            # the decimal precision is process-wide in the writers: put the default back for the oracle's own exports
+            from commonroad.common.writer import file_writer_interface as fwi
+            fwi.precision.decimals = 4
 
 
 def _regs(l):
@@ -1065,25 +1476,57 @@ def do_draw(sc, pps, p):
             for part in head:
                 obj = getattr(obj, part)
             setattr(obj, last, val)
-        rnd = MPRenderer(ax=ax, draw_params=dp)
+        focus = sc.obstacle_by_id(p["focus"]) if p.get("focus") is not None else None
+        rnd = MPRenderer(ax=ax, draw_params=dp, plot_limits=p.get("limits"), focus_obstacle=focus)
         what = p["what"]
-        if what in ("scenario", "both"):
-            sc.draw(rnd)
-        if what in ("pps", "both"):
-            pps.draw(rnd)
-        # single objects drawn directly (a sign or light handed to the renderer is rendered whatever draw_traffic_signs says)
-        if what == "signs":
-            for x in sc.lanelet_network.traffic_signs:
-                x.draw(rnd)
-        if what == "lights":
-            for x in sc.lanelet_network.traffic_lights:
-                x.draw(rnd)
-        if what == "network":
-            sc.lanelet_network.draw(rnd)
-        if what == "obstacles":
-            for x in sc.obstacles:
-                x.draw(rnd)
-        rnd.render()
+
+        def draw_once():
+            if what in ("scenario", "both"):
+                sc.draw(rnd)
+            if what in ("pps", "both"):
+                pps.draw(rnd)
+            # single objects handed to the renderer (a sign or light drawn directly is rendered whatever draw_traffic_signs says)
+            if what == "signs":
+                for x in sc.lanelet_network.traffic_signs:
+                    x.draw(rnd)
+            if what == "lights":
+                for x in sc.lanelet_network.traffic_lights:
+                    x.draw(rnd)
+            if what == "network":
+                sc.lanelet_network.draw(rnd)
+            if what == "obstacles":
+                for x in sc.obstacles:
+                    x.draw(rnd)
+            if what == "goal":
+                for pp in pps.planning_problem_dict.values():
+                    pp.goal.draw(rnd)
+                    pp.initial_state.draw(rnd)
+            if what == "trajectories":
+                trs = [o.prediction.trajectory for o in sc.dynamic_obstacles if hasattr(o.prediction, "trajectory")]
+                rnd.draw_trajectories(trs)
+                for t in trs:
+                    t.draw(rnd)
+            if what == "list":
+                rnd.draw_list([sc, pps] + sc.obstacles)
+            if what == "states":
+                _owned_state(sc, pps, p["owner"]).draw(rnd)
+            if what == "shape":
+                _owned_shape(sc, pps, p["owner"]).draw(rnd)
+        if p.get("video"):
+            # create_video draws and renders frame by frame with its own copies of the parameters
+            rnd.create_video([sc, pps] if what == "both" else [sc], os.path.join(p["dir"], "v.gif"), delta_time_steps=1, plotting_horizon=p["te"] - p["tb"],
+                             draw_params=dp if p["video"] == "params" else None, fig_size=[2, 1.2], dt=100, dpi=30, progress=False)
+            return True
+        draw_once()
+        rnd.render(filename=os.path.join(p["dir"], "frame.png") if p.get("file") else None, keep_static_artists=bool(p.get("keep")))
+        # the SAME renderer used again: dynamic part only, then a complete second drawing
+        for again in range(p.get("reuse", 0)):
+            if again == 0:
+                rnd.remove_dynamic()
+                rnd.render_dynamic()
+            draw_once()
+            rnd.render(keep_static_artists=bool(p.get("keep")))
+            rnd.clear(keep_static_artists=bool(p.get("keep")))
         return True
     finally:
         plt.close(fig)
@@ -1495,12 +1938,16 @@ def model_op(op, P, spy, env):
             return ["reached", op[1], {"k": "init", "oid": op[2]}, goal_decisions(pp, x)], "same"
         i = next(i for i, y in enumerate(to.prediction.trajectory.state_list) if y is x)
         return ["reached", op[1], {"k": "traj", "oid": op[2], "i": i}, goal_decisions(pp, x)], "same"
+    if k in ("eq", "hash", "copy", "deepcopy", "pickle") and not (isinstance(op[1], str) or op[1][0] in ("obstacle", "problem")):
+        return ["reads", spy.occ, spy.light], ("eq" if k == "eq" else "skip")      # a part of the scenario: pure read for the model
     if k == "eq":
         return ["eq", _target_json(op[1])], "eq"
     if k == "hash":
         return ["hash", _target_json(op[1])], "skip"
     if k == "copy":
         return ["shallowCopy", _target_json(op[1])], "copy" if op[1] == "scenario" else "skip"
+    if k == "by_interval" and len(op) > 4:
+        return ["reads", spy.occ, spy.light], "skip"        # explicit roles (phantom / environment obstacles): generic read
     if k == "by_interval":
         from commonroad.common.util import Interval
         ivx, ivy = Interval(*op[1]), Interval(*op[2])
@@ -1508,7 +1955,7 @@ def model_op(op, P, spy, env):
         for o in twin[0].dynamic_obstacles:
             with warnings.catch_warnings():
                 warnings.simplefilter("ignore")
-                r = call(o.occupancy_at_time, op[3])
+                r = call(o.occupancy_at_time, op[3] if op[3] is not None else 0)
             if r[0] == "ok" and r[1] is not None:
                 c = getattr(r[1].shape, "center", None)
                 if c is None or (ivx.contains(c[0]) and ivy.contains(c[1])):
@@ -1517,7 +1964,7 @@ def model_op(op, P, spy, env):
             c = o.initial_state.position
             if ivx.contains(c[0]) and ivy.contains(c[1]):
                 inside.append(o.obstacle_id)
-        return ["byIntervals", op[3], inside], "same"
+        return ["byIntervals", op[3] if op[3] is not None else 0, inside], "same"
     if k == "map_obstacles":
         obs = sc.static_obstacles + (sc.dynamic_obstacles if len(op) > 2 and op[2] == "all" else [])
         return ["mapObstacles", [o.obstacle_id for o in obs], _rel(twin[0], sc.lanelet_network.lanelets, obs, 0)], "mapping-" + op[1]
@@ -1532,8 +1979,11 @@ def model_op(op, P, spy, env):
         ans = _LAST.get("answer")
         paths = [p[1:] for p in ans[0]] if ans else []          # the routes depend on lanelet lengths: taken from the answer
         return ["mergeFrom", op[1], paths], "regs"
-    if k == "draw" and op[1]["what"] in ("signs", "lights", "network", "obstacles"):
-        return ["reads", spy.occ, spy.light], "skip"
+    if k == "lanelet_q" and op[2] == "merge_direct":
+        first, second = (int(op[3][0][0]), op[1]) if op[3][0][1] else (op[1], int(op[3][0][0]))
+        return ["mergeFrom", first, [[second]]], "regs"
+    if k == "draw" and (op[1]["what"] not in ("scenario", "both", "pps") or op[1].get("reuse") or op[1].get("video")):
+        return ["reads", spy.occ, spy.light], "skip"        # single objects, a reused renderer, a video: the caches recorded from the run
     if k == "draw":
         from commonroad.geometry.shape import Rectangle
         from commonroad.visualization.icons import supported_icons
@@ -1597,7 +2047,7 @@ def _compare_answer(mode, impl, model, amb, op):
             return None
         ok = v == [sorted(x) for x in m]
     elif mode == "eq":
-        ok = v == [m, m, m]
+        ok = v == [True, True, True] if m is None else v == [m, m, m]
     elif mode == "reach":
         ok = v == ([True, m] if m is not None else [False, -1])
     elif mode == "mapping-map":
@@ -1632,6 +2082,11 @@ def run_case(ctx, case, with_model=True, old_pb=False):
         warnings.simplefilter("ignore")
         sc, pps = build(spec)
         twin = build(spec)
+    pre = case.get("pre", [])
+    apply_pre(sc, pps, pre)
+    apply_pre(twin[0], twin[1], pre)
+    for x in pre:
+        ctx.tag("pre:" + x[0])
     _tag_spec(ctx, spec)
     ctx.case(case)
     I = Intern()
@@ -1645,6 +2100,9 @@ def run_case(ctx, case, with_model=True, old_pb=False):
     with warnings.catch_warnings():
         warnings.simplefilter("ignore")
         aux = build(spec)        # a third copy, used only to evaluate the geometric / decision parameters of model operations
+    apply_pre(aux[0], aux[1], pre)
+    if any(x[0] == "translate" for x in pre):
+        ambiguous = set(range(len(P)))       # the lanelets were moved: which query point lies where is not known from the spec
     S = {}
     for op in ops:
         if op[0] == "find_shape" and json.dumps(op[1]) not in S:
@@ -1682,6 +2140,9 @@ def run_case(ctx, case, with_model=True, old_pb=False):
         ctx.tag("op:" + op[0])
         if op[0] == "draw":
             ctx.tag("draw:" + op[1]["what"])
+            for extra in ("reuse", "limits", "file", "focus", "video"):
+                if op[1].get(extra):
+                    ctx.tag("draw:" + extra)
             for f in op[1].get("flags", []):
                 ctx.tag("draw-flag:" + f[0].split(".")[-1])
             shown = op[1]["what"] == "signs" or (op[1]["what"] in ("scenario", "both", "network")
@@ -1845,6 +2306,14 @@ def _canon_out(v):
 
 
 def _tag_spec(ctx, spec):
+    if spec.get("areas"):
+        ctx.tag("spec:areas")
+    if spec.get("map_info"):
+        ctx.tag("spec:map_info")
+    if not spec["dynamic"]:
+        ctx.tag("spec:no-dynamic")
+    if 0 in _obstacle_ids(spec):
+        ctx.tag("spec:id-0")
     for d in spec["dynamic"]:
         p = d["pred"]
         if p is None:
@@ -1871,6 +2340,11 @@ def _tag_spec(ctx, spec):
 def run(ctx):
     import logging
     logging.disable(logging.CRITICAL)
+    import c18_dims
+    kinds = {"occ", "state", "occs", "states_at", "occset", "find_pos", "find_shape", "proximity", "light", "reached", "reached_own", "goal_reached",
+             "eq", "hash", "copy", "deepcopy", "pickle", "write_xml", "write_pb", "str", "by_role", "by_interval", "signal", "lanelet_q",
+             "map_obstacles", "final_time", "traj_q", "net_copy", "most_likely", "draw"} | set(NEW_KINDS)
+    c18_dims.check(ctx, kinds)
     for p in sorted(glob.glob(os.path.join(CORPUS_DIR, "C18", "*.json"))):
         run_case(ctx, json.load(open(p)))
     n = ctx.n(110)
